@@ -90,28 +90,14 @@ impl<const N: usize> RegisterAllocator<N> {
 '''
 
 LEMMAS = r"""
-proof fn lemma_run_split(ops: Seq<RegOp>, lo: int, mid: int, hi: int, st: St, inp: Seq<f32>)
-    requires lo <= mid <= hi
-    ensures reg_run_rev(ops, lo, hi, st, inp) == reg_run_rev(ops, lo, mid, reg_run_rev(ops, mid, hi, st, inp), inp)
-    decreases hi - mid
-{
-    if hi > mid {
-        lemma_run_split(ops, lo, mid, hi - 1, reg_step(ops[hi - 1], st, inp), inp);
-    }
-}
-proof fn lemma_run_ext(a: Seq<RegOp>, b: Seq<RegOp>, lo: int, hi: int, st: St, inp: Seq<f32>)
-    requires 0 <= lo <= hi <= a.len(), hi <= b.len(), forall|k: int| lo <= k < hi ==> a[k] == b[k]
-    ensures reg_run_rev(a, lo, hi, st, inp) == reg_run_rev(b, lo, hi, st, inp)
-    decreases hi - lo
-{
-    if hi > lo { lemma_run_ext(a, b, lo, hi - 1, reg_step(a[hi - 1], st, inp), inp); }
-}
-
 // ---------------- tape semantics (prototype: subset of opcodes) ----------------
 uninterp spec fn un_sem(tag: int, a: f32) -> f32;
 uninterp spec fn bin_sem(tag: int, a: f32, b: f32) -> f32;
 
 struct St { slots: Map<int, f32>, outs: Map<int, f32> }
+type Env = Map<int, f32>;
+type FE = spec_fn(Env, Seq<f32>) -> Env;
+type FO = spec_fn(Map<int, f32>, Env, Seq<f32>) -> Map<int, f32>;
 
 spec fn reg_step(op: RegOp, st: St, inp: Seq<f32>) -> St {
     match op {
@@ -131,8 +117,180 @@ spec fn reg_run_rev(ops: Seq<RegOp>, lo: int, hi: int, st: St, inp: Seq<f32>) ->
 {
     if hi <= lo { st } else { reg_run_rev(ops, lo, hi - 1, reg_step(ops[hi - 1], st, inp), inp) }
 }
-spec fn agree(alloc: Seq<u32>, slots: Map<int, f32>, env: Map<int, f32>) -> bool {
+spec fn agree(alloc: Seq<u32>, slots: Map<int, f32>, env: Env) -> bool {
     forall|s: int| 0 <= s < alloc.len() && #[trigger] alloc[s] != UNASSIGNED ==> slots[alloc[s] as int] == env[s]
+}
+#[verifier::opaque]
+spec fn simf(a_new: Seq<u32>, a_old: Seq<u32>, tape: Seq<RegOp>, lo: int, hi: int, fe: FE, fo: FO) -> bool {
+    forall|st: St, env: Env, inp: Seq<f32>| #[trigger] agree(a_new, st.slots, env) ==>
+        agree(a_old, (#[trigger] reg_run_rev(tape, lo, hi, st, inp)).slots, fe(env, inp))
+        && reg_run_rev(tape, lo, hi, st, inp).outs == fo(st.outs, env, inp)
+}
+spec fn id_env() -> FE { |e: Env, i: Seq<f32>| e }
+spec fn id_outs() -> FO { |o: Map<int, f32>, e: Env, i: Seq<f32>| o }
+spec fn sim(a_new: Seq<u32>, a_old: Seq<u32>, tape: Seq<RegOp>, lo: int, hi: int) -> bool {
+    simf(a_new, a_old, tape, lo, hi, id_env(), id_outs())
+}
+spec fn fe_def(out: int, c: spec_fn(Seq<f32>) -> f32) -> FE { |e: Env, i: Seq<f32>| e.insert(out, c(i)) }
+spec fn fe_un(out: int, arg: int, f: spec_fn(f32) -> f32) -> FE { |e: Env, i: Seq<f32>| e.insert(out, f(e[arg])) }
+spec fn fo_output(k: int, arg: int) -> FO { |o: Map<int, f32>, e: Env, i: Seq<f32>| o.insert(k, e[arg]) }
+
+spec fn shape_out<F: Fn(u8) -> RegOp>(op: F, c: spec_fn(Seq<f32>) -> f32) -> bool {
+    forall|a: u8, r: RegOp, st: St, inp: Seq<f32>| #[trigger] op.ensures((a,), r) ==>
+        #[trigger] reg_step(r, st, inp) == (St { slots: st.slots.insert(a as int, c(inp)), outs: st.outs })
+}
+spec fn shape_un<F: Fn(u8, u8) -> RegOp>(op: F, f: spec_fn(f32) -> f32) -> bool {
+    forall|a: u8, b: u8, r: RegOp, st: St, inp: Seq<f32>| #[trigger] op.ensures((a, b), r) ==>
+        #[trigger] reg_step(r, st, inp) == (St { slots: st.slots.insert(a as int, f(st.slots[b as int])), outs: st.outs })
+}
+
+proof fn lemma_run_split(ops: Seq<RegOp>, lo: int, mid: int, hi: int, st: St, inp: Seq<f32>)
+    requires lo <= mid <= hi
+    ensures reg_run_rev(ops, lo, hi, st, inp) == reg_run_rev(ops, lo, mid, reg_run_rev(ops, mid, hi, st, inp), inp)
+    decreases hi - mid
+{
+    if hi > mid { lemma_run_split(ops, lo, mid, hi - 1, reg_step(ops[hi - 1], st, inp), inp); }
+}
+proof fn lemma_run_ext(a: Seq<RegOp>, b: Seq<RegOp>, lo: int, hi: int, st: St, inp: Seq<f32>)
+    requires 0 <= lo <= hi <= a.len(), hi <= b.len(), forall|k: int| lo <= k < hi ==> a[k] == b[k]
+    ensures reg_run_rev(a, lo, hi, st, inp) == reg_run_rev(b, lo, hi, st, inp)
+    decreases hi - lo
+{
+    if hi > lo { lemma_run_ext(a, b, lo, hi - 1, reg_step(a[hi - 1], st, inp), inp); }
+}
+proof fn lemma_run_one(ops: Seq<RegOp>, k: int, st: St, inp: Seq<f32>)
+    ensures reg_run_rev(ops, k, k + 1, st, inp) == reg_step(ops[k], st, inp), reg_run_rev(ops, k, k, st, inp) == st
+{
+    assert(reg_run_rev(ops, k, k, reg_step(ops[k], st, inp), inp) == reg_step(ops[k], st, inp));
+}
+proof fn lemma_sim_refl(a: Seq<u32>, tape: Seq<RegOp>, lo: int)
+    ensures sim(a, a, tape, lo, lo)
+{
+    reveal(simf);
+}
+proof fn lemma_sim_ext(a1: Seq<u32>, a0: Seq<u32>, t1: Seq<RegOp>, t2: Seq<RegOp>, lo: int, hi: int, fe: FE, fo: FO)
+    requires simf(a1, a0, t1, lo, hi, fe, fo), 0 <= lo <= hi <= t1.len(), hi <= t2.len(), forall|k: int| lo <= k < hi ==> t1[k] == t2[k]
+    ensures simf(a1, a0, t2, lo, hi, fe, fo)
+{
+    reveal(simf);
+    assert forall|st: St, env: Env, inp: Seq<f32>| #[trigger] agree(a1, st.slots, env) implies
+        agree(a0, (#[trigger] reg_run_rev(t2, lo, hi, st, inp)).slots, fe(env, inp))
+        && reg_run_rev(t2, lo, hi, st, inp).outs == fo(st.outs, env, inp) by {
+        lemma_run_ext(t1, t2, lo, hi, st, inp);
+        assert(agree(a0, reg_run_rev(t1, lo, hi, st, inp).slots, fe(env, inp)));
+    }
+}
+/// the ops in [mid,hi) run first (they were pushed last); then the identity-prefix [lo,mid)
+proof fn lemma_sim_then(a2: Seq<u32>, a1: Seq<u32>, a0: Seq<u32>, tape: Seq<RegOp>, lo: int, mid: int, hi: int, fe: FE, fo: FO)
+    requires simf(a2, a1, tape, mid, hi, fe, fo), sim(a1, a0, tape, lo, mid), lo <= mid <= hi
+    ensures simf(a2, a0, tape, lo, hi, fe, fo)
+{
+    reveal(simf);
+    assert forall|st: St, env: Env, inp: Seq<f32>| #[trigger] agree(a2, st.slots, env) implies
+        agree(a0, (#[trigger] reg_run_rev(tape, lo, hi, st, inp)).slots, fe(env, inp))
+        && reg_run_rev(tape, lo, hi, st, inp).outs == fo(st.outs, env, inp) by {
+        let r1 = reg_run_rev(tape, mid, hi, st, inp);
+        assert(agree(a1, r1.slots, fe(env, inp)));
+        lemma_run_split(tape, lo, mid, hi, st, inp);
+        let r0 = reg_run_rev(tape, lo, mid, r1, inp);
+        assert(agree(a0, r0.slots, id_env()(fe(env, inp), inp)));
+        assert(r0.outs == id_outs()(r1.outs, fe(env, inp), inp));
+    }
+}
+proof fn lemma_simf_fe_ext(a1: Seq<u32>, a0: Seq<u32>, tape: Seq<RegOp>, lo: int, hi: int, fe1: FE, fe2: FE, fo1: FO, fo2: FO)
+    requires simf(a1, a0, tape, lo, hi, fe1, fo1),
+        forall|e: Env, i: Seq<f32>| #[trigger] fe1(e, i) == fe2(e, i),
+        forall|o: Map<int, f32>, e: Env, i: Seq<f32>| #[trigger] fo1(o, e, i) == fo2(o, e, i),
+    ensures simf(a1, a0, tape, lo, hi, fe2, fo2)
+{
+    reveal(simf);
+    assert forall|st: St, env: Env, inp: Seq<f32>| #[trigger] agree(a1, st.slots, env) implies
+        agree(a0, (#[trigger] reg_run_rev(tape, lo, hi, st, inp)).slots, fe2(env, inp))
+        && reg_run_rev(tape, lo, hi, st, inp).outs == fo2(st.outs, env, inp) by {
+        assert(fe1(env, inp) == fe2(env, inp));
+        assert(fo1(st.outs, env, inp) == fo2(st.outs, env, inp));
+    }
+}
+proof fn lemma_sim_drop(a: Seq<u32>, s0: int, tape: Seq<RegOp>, k: int)
+    requires 0 <= s0 < a.len()
+    ensures sim(a, a.update(s0, UNASSIGNED), tape, k, k)
+{
+    reveal(simf);
+    let a1 = a.update(s0, UNASSIGNED);
+    assert forall|st: St, env: Env, inp: Seq<f32>| #[trigger] agree(a, st.slots, env) implies
+        agree(a1, (#[trigger] reg_run_rev(tape, k, k, st, inp)).slots, id_env()(env, inp))
+        && reg_run_rev(tape, k, k, st, inp).outs == id_outs()(st.outs, env, inp) by {
+        assert forall|s: int| 0 <= s < a1.len() && #[trigger] a1[s] != UNASSIGNED implies st.slots[a1[s] as int] == env[s] by {
+            assert(s != s0); assert(a[s] == a1[s]);
+        }
+    }
+}
+// ---- single-op steps (sequence-level, no allocator context) ----
+proof fn lemma_step_load(a_old: Seq<u32>, tape: Seq<RegOp>, k: int, reg: u8, m: u32, e: int)
+    requires 0 <= e < a_old.len(), a_old[e] == reg as u32, tape[k] == RegOp::Load(reg, m), m != UNASSIGNED,
+        forall|t: int| 0 <= t < a_old.len() && t != e ==> #[trigger] a_old[t] != reg as u32,
+    ensures sim(a_old.update(e, m), a_old, tape, k, k + 1)
+{
+    reveal(simf);
+    let a_new = a_old.update(e, m);
+    assert forall|st: St, env: Env, inp: Seq<f32>| #[trigger] agree(a_new, st.slots, env) implies
+        agree(a_old, (#[trigger] reg_run_rev(tape, k, k + 1, st, inp)).slots, id_env()(env, inp))
+        && reg_run_rev(tape, k, k + 1, st, inp).outs == id_outs()(st.outs, env, inp) by {
+        lemma_run_one(tape, k, st, inp);
+        let st1 = reg_step(tape[k], st, inp);
+        assert forall|s: int| 0 <= s < a_old.len() && #[trigger] a_old[s] != UNASSIGNED implies st1.slots[a_old[s] as int] == env[s] by {
+            if s == e { assert(a_new[e] == m); } else { assert(a_new[s] == a_old[s]); }
+        }
+    }
+}
+/// Store(r, m) followed (in allocation terms) by binding slot s to r instead of m
+proof fn lemma_step_store(a_old: Seq<u32>, tape: Seq<RegOp>, k: int, r: u8, m: u32, s0: int, n: int)
+    requires 0 <= s0 < a_old.len(), a_old[s0] == m, tape[k] == RegOp::Store(r, m), (r as int) < n <= m, m != UNASSIGNED,
+        forall|t: int| 0 <= t < a_old.len() && t != s0 ==> #[trigger] a_old[t] != m,
+    ensures sim(a_old.update(s0, r as u32), a_old, tape, k, k + 1)
+{
+    reveal(simf);
+    let a_new = a_old.update(s0, r as u32);
+    assert forall|st: St, env: Env, inp: Seq<f32>| #[trigger] agree(a_new, st.slots, env) implies
+        agree(a_old, (#[trigger] reg_run_rev(tape, k, k + 1, st, inp)).slots, id_env()(env, inp))
+        && reg_run_rev(tape, k, k + 1, st, inp).outs == id_outs()(st.outs, env, inp) by {
+        lemma_run_one(tape, k, st, inp);
+        let st1 = reg_step(tape[k], st, inp);
+        assert forall|s: int| 0 <= s < a_old.len() && #[trigger] a_old[s] != UNASSIGNED implies st1.slots[a_old[s] as int] == env[s] by {
+            if s == s0 { assert(a_new[s0] == r as u32); } else { assert(a_new[s] == a_old[s]); }
+        }
+    }
+}
+proof fn lemma_step_output(a: Seq<u32>, tape: Seq<RegOp>, k: int, r: u8, i: u32, s0: int)
+    requires 0 <= s0 < a.len(), a[s0] == r as u32, tape[k] == RegOp::Output(r, i),
+    ensures simf(a, a, tape, k, k + 1, id_env(), fo_output(i as int, s0))
+{
+    reveal(simf);
+    assert forall|st: St, env: Env, inp: Seq<f32>| #[trigger] agree(a, st.slots, env) implies
+        agree(a, (#[trigger] reg_run_rev(tape, k, k + 1, st, inp)).slots, id_env()(env, inp))
+        && reg_run_rev(tape, k, k + 1, st, inp).outs == fo_output(i as int, s0)(st.outs, env, inp) by {
+        lemma_run_one(tape, k, st, inp);
+        assert(a[s0] != UNASSIGNED);
+    }
+}
+/// an op that defines `out` in register rx from nothing but the inputs; afterwards (in reverse) out is dead
+proof fn lemma_step_def(a_old: Seq<u32>, tape: Seq<RegOp>, k: int, rx: u8, out: int, c: spec_fn(Seq<f32>) -> f32)
+    requires 0 <= out < a_old.len(), a_old[out] == rx as u32,
+        forall|t: int| 0 <= t < a_old.len() && t != out ==> #[trigger] a_old[t] != rx as u32,
+        forall|st: St, inp: Seq<f32>| #[trigger] reg_step(tape[k], st, inp) == (St { slots: st.slots.insert(rx as int, c(inp)), outs: st.outs }),
+    ensures simf(a_old.update(out, UNASSIGNED), a_old, tape, k, k + 1, fe_def(out, c), id_outs())
+{
+    reveal(simf);
+    let a_new = a_old.update(out, UNASSIGNED);
+    assert forall|st: St, env: Env, inp: Seq<f32>| #[trigger] agree(a_new, st.slots, env) implies
+        agree(a_old, (#[trigger] reg_run_rev(tape, k, k + 1, st, inp)).slots, fe_def(out, c)(env, inp))
+        && reg_run_rev(tape, k, k + 1, st, inp).outs == id_outs()(st.outs, env, inp) by {
+        lemma_run_one(tape, k, st, inp);
+        let st1 = reg_step(tape[k], st, inp);
+        assert forall|s: int| 0 <= s < a_old.len() && #[trigger] a_old[s] != UNASSIGNED implies st1.slots[a_old[s] as int] == fe_def(out, c)(env, inp)[s] by {
+            if s != out { assert(a_new[s] == a_old[s]); }
+        }
+    }
 }
 
 impl<const N: usize> Lru<N> {
@@ -188,84 +346,115 @@ UNBOUND_AFTER_RELEASE = """            proof {
                 }
             }"""
 PROOFS = {
- 'get_out_reg|let r_a = self.get_register();': "                let ghost s1 = *self;",
- 'get_out_reg|self.push_store(r_a, m_x);': "                let ghost s2 = *self;",
-
  'get_register|self.out.push(RegOp::Load(reg, mem));': """            proof {
                 let o = *old(self);
-                let lo = o.out.tape@.len() as int;
-                assert(self.out.tape@.len() == lo + 1);
-                assert forall|st: St, env: Map<int, f32>, inp: Seq<f32>| #[trigger] agree(self.allocations@, st.slots, env) implies
-                    agree(o.allocations@, (#[trigger] reg_run_rev(self.out.tape@, lo, lo + 1, st, inp)).slots, env)
-                    && reg_run_rev(self.out.tape@, lo, lo + 1, st, inp).outs == st.outs by {
-                    let st1 = reg_step(RegOp::Load(reg, mem), st, inp);
-                    assert(self.out.tape@[lo] == RegOp::Load(reg, mem));
-                    assert(reg_run_rev(self.out.tape@, lo, lo, st1, inp) == st1);
-                    assert(reg_run_rev(self.out.tape@, lo, lo + 1, st, inp) == st1);
-                    assert forall|s: int| 0 <= s < o.allocations@.len() && #[trigger] o.allocations@[s] != UNASSIGNED implies st1.slots[o.allocations@[s] as int] == env[s] by {
-                        if s == prev_node as int {
-                            assert(self.allocations@[s] == mem);
-                        } else {
-                            assert(self.allocations@[s] == o.allocations@[s]);
-                            assert(o.allocations@[s] != reg as u32);
-                        }
-                    }
-                }
+                lemma_step_load(o.allocations@, self.out.tape@, o.out.tape@.len() as int, reg, mem, prev_node as int);
             }""",
- 'get_register|self.register_lru.poke(reg);#0': """            proof {
-                let o = *old(self);
-                let lo = o.out.tape@.len() as int;
-                assert forall|st: St, env: Map<int, f32>, inp: Seq<f32>| #[trigger] agree(self.allocations@, st.slots, env) implies
-                    agree(o.allocations@, (#[trigger] reg_run_rev(self.out.tape@, lo, lo, st, inp)).slots, env)
-                    && reg_run_rev(self.out.tape@, lo, lo, st, inp).outs == st.outs by {}
-            }""",
-
- 'op_out_only|let r_x = self.get_out_reg(out);': "        let ghost s1 = *self;",
- 'op_out_only|self.release_reg(r_x);': UNBOUND_AFTER_RELEASE.replace('PRE','s1'),
-
-
- 'self.bind_register(out, r_a);': """                proof {
+ 'get_register|self.register_lru.poke(reg);#0': """            proof { lemma_sim_refl(self.allocations@, self.out.tape@, self.out.tape@.len() as int); }""",
+ 'get_out_reg|let r_a = self.get_register();': "                let ghost s1 = *self;",
+ 'get_out_reg|self.bind_register(out, r_a);': """                proof {
                     let o0 = *old(self);
-                    let lo = o0.out.tape@.len() as int;
-                    let mid = s1.out.tape@.len() as int;
-                    let hi = self.out.tape@.len() as int;
-                    assert(hi == mid + 1);
-                    assert(self.out.tape@[mid] == RegOp::Store(r_a, m_x));
-                    assert forall|st: St, env: Map<int, f32>, inp: Seq<f32>| #[trigger] agree(self.allocations@, st.slots, env) implies
-                        agree(o0.allocations@, (#[trigger] reg_run_rev(self.out.tape@, lo, hi, st, inp)).slots, env)
-                        && reg_run_rev(self.out.tape@, lo, hi, st, inp).outs == st.outs by {
-                        let st1 = reg_step(RegOp::Store(r_a, m_x), st, inp);
-                        lemma_run_split(self.out.tape@, lo, mid, hi, st, inp);
-                        assert(reg_run_rev(self.out.tape@, mid, mid, st1, inp) == st1);
-                        assert(reg_run_rev(self.out.tape@, mid, hi, st, inp) == st1);
-                        lemma_run_ext(self.out.tape@, s1.out.tape@, lo, mid, st1, inp);
-                        // st1 agrees with the allocation right after get_register (out still in memory m_x)
-                        assert(agree(s1.allocations@, st1.slots, env)) by {
-                            assert forall|s: int| 0 <= s < s1.allocations@.len() && #[trigger] s1.allocations@[s] != UNASSIGNED implies st1.slots[s1.allocations@[s] as int] == env[s] by {
-                                if s == out as int {
-                                    assert(self.allocations@[s] == r_a as u32);
-                                } else {
-                                    assert(self.allocations@[s] == s1.allocations@[s]);
-                                    assert(s1.allocations@[s] != m_x);
-                                }
-                            }
-                        }
-                        let st2 = reg_run_rev(s1.out.tape@, lo, mid, st1, inp);
-                        assert(agree(o0.allocations@, st2.slots, env));
-                    }
-                }
-                proof {
                     let e: Set<int> = Set::empty();
-                    let o = *old(self);
-                    assert(o.unbound_in(e));
+                    assert(o0.unbound_in(e));
                     assert forall|r: u8| (r as int) < N && #[trigger] self.registers[r as int] == UNASSIGNED
                         implies self.spare_registers@.contains(r) || e.contains(r as int) by {
                         assert(self.registers@[r_a as int] == out);
                         assert(r != r_a);
-                        assert(o.registers[r as int] == UNASSIGNED);
-                        assert(o.spare_registers@.contains(r));
+                        assert(o0.registers[r as int] == UNASSIGNED);
+                        assert(o0.spare_registers@.contains(r));
                     }
+                    let lo = o0.out.tape@.len() as int;
+                    let mid = s1.out.tape@.len() as int;
+                    let hi = self.out.tape@.len() as int;
+                    assert(self.out.tape@[mid] == RegOp::Store(r_a, m_x));
+                    lemma_step_store(s1.allocations@, self.out.tape@, mid, r_a, m_x, out as int, N as int);
+                    lemma_sim_ext(s1.allocations@, o0.allocations@, s1.out.tape@, self.out.tape@, lo, mid, id_env(), id_outs());
+                    lemma_sim_then(self.allocations@, s1.allocations@, o0.allocations@, self.out.tape@, lo, mid, hi, id_env(), id_outs());
                 }""",
+ 'get_out_reg|$TAILMATCH': """        proof {
+            if (old(self).allocations@[out as int] as int) < N {
+                lemma_sim_refl(self.allocations@, self.out.tape@, self.out.tape@.len() as int);
+            }
+        }""",
+ 'op_out_only|self.out.push(op(r_x));': "        let ghost s2 = *self;",
+ 'op_out_only|self.release_reg(r_x);': UNBOUND_AFTER_RELEASE.replace('PRE','s2') + """
+            proof {
+                let o0 = *old(self);
+                let lo = o0.out.tape@.len() as int;
+                let mid = s1.out.tape@.len() as int;
+                let hi = self.out.tape@.len() as int;
+                let rop = self.out.tape@[mid];
+                assert(op.ensures((r_x,), rop));
+                assert forall|c: spec_fn(Seq<f32>) -> f32| #[trigger] shape_out(op, c) implies
+                    simf(self.allocations@, o0.allocations@, self.out.tape@, lo, hi, fe_def(out as int, c), id_outs()) by {
+                    lemma_step_def(s1.allocations@, self.out.tape@, mid, r_x, out as int, c);
+                    lemma_sim_ext(s1.allocations@, o0.allocations@, s1.out.tape@, self.out.tape@, lo, mid, id_env(), id_outs());
+                    lemma_sim_then(self.allocations@, s1.allocations@, o0.allocations@, self.out.tape@, lo, mid, hi, fe_def(out as int, c), id_outs());
+                }
+            }""",
+ 'op_copy_imm|self.op_out_only(out, f);': """        proof { assert(shape_out(f, |i: Seq<f32>| imm)); }""",
+ 'op_input|self.op_out_only(out, f);': """        proof { assert(shape_out(f, |inp: Seq<f32>| inp[i as int])); }""",
+ 'op_output|let r_a = self.get_register();#0': "                let ghost s1 = *self;",
+ 'op_output|let r_a = self.get_register();#1': "                let ghost s1 = *self;",
+ 'op_output|self.bind_register(arg, r_a);#0': """                proof {
+                    let o0 = *old(self);
+                    let lo = o0.out.tape@.len() as int;
+                    let mid = s1.out.tape@.len() as int;
+                    let hi = self.out.tape@.len() as int;
+                    let e: Set<int> = Set::empty();
+                    assert(o0.unbound_in(e));
+                    assert forall|r: u8| (r as int) < N && #[trigger] self.registers[r as int] == UNASSIGNED
+                        implies self.spare_registers@.contains(r) || e.contains(r as int) by {
+                        assert(self.registers@[r_a as int] == arg);
+                        assert(r != r_a);
+                        assert(o0.registers[r as int] == UNASSIGNED);
+                        assert(o0.spare_registers@.contains(r));
+                    }
+
+                    assert(self.out.tape@[mid] == RegOp::Store(r_a, m_y));
+                    assert(self.out.tape@[mid + 1] == RegOp::Output(r_a, i));
+                    let a2 = self.allocations@;
+                    lemma_step_output(a2, self.out.tape@, mid + 1, r_a, i, arg as int);
+                    lemma_step_store(s1.allocations@, self.out.tape@, mid, r_a, m_y, arg as int, N as int);
+                    lemma_sim_ext(s1.allocations@, o0.allocations@, s1.out.tape@, self.out.tape@, lo, mid, id_env(), id_outs());
+                    lemma_sim_then(a2, s1.allocations@, o0.allocations@, self.out.tape@, lo, mid, mid + 1, id_env(), id_outs());
+                    lemma_sim_then(a2, a2, o0.allocations@, self.out.tape@, lo, mid + 1, hi, id_env(), fo_output(i as int, arg as int));
+                }""",
+ 'op_output|self.bind_register(arg, r_a);#1': """                proof {
+                    let o0 = *old(self);
+                    let lo = o0.out.tape@.len() as int;
+                    let mid = s1.out.tape@.len() as int;
+                    let hi = self.out.tape@.len() as int;
+                    let e: Set<int> = Set::empty();
+                    assert(o0.unbound_in(e));
+                    assert forall|r: u8| (r as int) < N && #[trigger] self.registers[r as int] == UNASSIGNED
+                        implies self.spare_registers@.contains(r) || e.contains(r as int) by {
+                        assert(self.registers@[r_a as int] == arg);
+                        assert(r != r_a);
+                        assert(o0.registers[r as int] == UNASSIGNED);
+                        assert(o0.spare_registers@.contains(r));
+                    }
+
+                    assert(self.out.tape@[mid] == RegOp::Output(r_a, i));
+                    let a2 = self.allocations@;
+                    lemma_step_output(a2, self.out.tape@, mid, r_a, i, arg as int);
+                    lemma_sim_drop(a2, arg as int, self.out.tape@, mid);
+                    assert(a2.update(arg as int, UNASSIGNED) =~= s1.allocations@);
+                    lemma_sim_ext(s1.allocations@, o0.allocations@, s1.out.tape@, self.out.tape@, lo, mid, id_env(), id_outs());
+                    lemma_sim_then(a2, s1.allocations@, o0.allocations@, self.out.tape@, lo, mid, mid, id_env(), id_outs());
+                    lemma_sim_then(a2, a2, o0.allocations@, self.out.tape@, lo, mid, hi, id_env(), fo_output(i as int, arg as int));
+                }""",
+ 'op_output|$END': """        proof {
+            let o0 = *old(self);
+            if (o0.allocations@[arg as int] as int) < N {
+                let lo = o0.out.tape@.len() as int;
+                let r_y = o0.allocations@[arg as int] as u8;
+                assert(self.out.tape@[lo] == RegOp::Output(r_y, i));
+                lemma_step_output(self.allocations@, self.out.tape@, lo, r_y, i, arg as int);
+            }
+        }""",
+
+ 'op_out_only|let r_x = self.get_out_reg(out);': "        let ghost s1 = *self;",
 
  'self.spare_memory.push(mem);': """        proof {
             let o = *old(self);
@@ -327,6 +516,32 @@ PROOFS = {
         }""",
 }
 SPECS = {
+ 'op_copy_imm': (None, """
+        requires old(self).wf(), (out as int) < old(self).allocations@.len(), old(self).allocations@[out as int] != UNASSIGNED,
+        ensures final(self).wf(),
+            final(self).allocations@.len() == old(self).allocations@.len(),
+            final(self).out.tape@.len() >= old(self).out.tape@.len(),
+            forall|k: int| 0 <= k < old(self).out.tape@.len() ==> #[trigger] final(self).out.tape@[k] == old(self).out.tape@[k],
+            simf(final(self).allocations@, old(self).allocations@, final(self).out.tape@, old(self).out.tape@.len() as int, final(self).out.tape@.len() as int, fe_def(out as int, |i: Seq<f32>| imm), id_outs()),
+"""),
+ 'op_input': (None, """
+        requires old(self).wf(), (out as int) < old(self).allocations@.len(), old(self).allocations@[out as int] != UNASSIGNED,
+        ensures final(self).wf(),
+            final(self).allocations@.len() == old(self).allocations@.len(),
+            final(self).out.tape@.len() >= old(self).out.tape@.len(),
+            forall|k: int| 0 <= k < old(self).out.tape@.len() ==> #[trigger] final(self).out.tape@[k] == old(self).out.tape@[k],
+            simf(final(self).allocations@, old(self).allocations@, final(self).out.tape@, old(self).out.tape@.len() as int, final(self).out.tape@.len() as int, fe_def(out as int, |inp: Seq<f32>| inp[i as int]), id_outs()),
+"""),
+
+ 'op_output': (None, """
+        requires old(self).wf(), (arg as int) < old(self).allocations@.len(),
+        ensures final(self).wf(),
+            final(self).allocations@.len() == old(self).allocations@.len(),
+            final(self).out.tape@.len() >= old(self).out.tape@.len(),
+            forall|k: int| 0 <= k < old(self).out.tape@.len() ==> #[trigger] final(self).out.tape@[k] == old(self).out.tape@[k],
+            simf(final(self).allocations@, old(self).allocations@, final(self).out.tape@, old(self).out.tape@.len() as int, final(self).out.tape@.len() as int, id_env(), fo_output(i as int, arg as int)),
+"""),
+
  'release_mem': (None, """
         requires old(self).wf_mid(), Self::is_mem(mem), mem < old(self).out.slot_count, !old(self).spare_memory@.contains(mem),
         ensures final(self).wf_mid(),
@@ -355,9 +570,7 @@ SPECS = {
             final(self).register_lru.order()[0] == r,
             final(self).out.tape@.len() >= old(self).out.tape@.len(),
             forall|k: int| 0 <= k < old(self).out.tape@.len() ==> #[trigger] final(self).out.tape@[k] == old(self).out.tape@[k],
-            forall|st: St, env: Map<int, f32>, inp: Seq<f32>| #[trigger] agree(final(self).allocations@, st.slots, env) ==>
-                agree(old(self).allocations@, (#[trigger] reg_run_rev(final(self).out.tape@, old(self).out.tape@.len() as int, final(self).out.tape@.len() as int, st, inp)).slots, env)
-                && reg_run_rev(final(self).out.tape@, old(self).out.tape@.len() as int, final(self).out.tape@.len() as int, st, inp).outs == st.outs,
+            sim(final(self).allocations@, old(self).allocations@, final(self).out.tape@, old(self).out.tape@.len() as int, final(self).out.tape@.len() as int),
             final(self).allocations@.len() == old(self).allocations@.len(),
             forall|s: int| 0 <= s < old(self).allocations@.len() ==>
                 (#[trigger] final(self).allocations@[s] == UNASSIGNED <==> old(self).allocations@[s] == UNASSIGNED),
@@ -369,6 +582,10 @@ SPECS = {
         ensures final(self).wf(),
             final(self).allocations@.len() == old(self).allocations@.len(),
             final(self).allocations@[out as int] == UNASSIGNED,
+            final(self).out.tape@.len() >= old(self).out.tape@.len(),
+            forall|k: int| 0 <= k < old(self).out.tape@.len() ==> #[trigger] final(self).out.tape@[k] == old(self).out.tape@[k],
+            forall|c: spec_fn(Seq<f32>) -> f32| #[trigger] shape_out(op, c) ==>
+                simf(final(self).allocations@, old(self).allocations@, final(self).out.tape@, old(self).out.tape@.len() as int, final(self).out.tape@.len() as int, fe_def(out as int, c), id_outs()),
             forall|s: int| 0 <= s < old(self).allocations@.len() && s != out ==>
                 (#[trigger] final(self).allocations@[s] == UNASSIGNED <==> old(self).allocations@[s] == UNASSIGNED),
 """),
@@ -382,9 +599,7 @@ SPECS = {
             final(self).out.slot_count >= old(self).out.slot_count,
             forall|r: int| 0 <= r < N && r != reg ==> final(self).registers[r] == old(self).registers[r],
             forall|r: u8| r != reg && #[trigger] old(self).spare_registers@.contains(r) ==> final(self).spare_registers@.contains(r),
-            forall|st: St, env: Map<int, f32>, inp: Seq<f32>| #[trigger] agree(final(self).allocations@, st.slots, env) ==>
-                agree(old(self).allocations@, (#[trigger] reg_run_rev(final(self).out.tape@, old(self).out.tape@.len() as int, final(self).out.tape@.len() as int, st, inp)).slots, env)
-                && reg_run_rev(final(self).out.tape@, old(self).out.tape@.len() as int, final(self).out.tape@.len() as int, st, inp).outs == st.outs,
+            sim(final(self).allocations@, old(self).allocations@, final(self).out.tape@, old(self).out.tape@.len() as int, final(self).out.tape@.len() as int),
             old(self).spare_registers@.len() > 0 ==> (
                 reg == old(self).spare_registers@.last()
                 && final(self).spare_registers@ == old(self).spare_registers@.drop_last()
@@ -479,5 +694,3 @@ SPECS = {
 }
 
 PRELUDE = PRELUDE0 + LEMMAS
-
-REPLACE = []
